@@ -268,7 +268,8 @@ func (w *e1World) step(c *sim.Ctx, prop string, i int, o fsx.Op, env *fsx.Env, u
 	}
 
 	op := o
-	_, v, msg := sim.Call1(func() string {
+	// temporary names come from the scheduler's seam (client 0, call i): the same run chooses the same names.
+	_, v, msg := sim.Call1As(0, i, 9973, func() string {
 		out.a = env.Exec(op)
 
 		return out.a.String()
